@@ -4,8 +4,12 @@ from fractions import Fraction
 from s3transfer.bandwidth import (BandwidthLimitedStream, BandwidthRateTracker, ConsumptionScheduler, LeakyBucket,
                                   RequestExceededException, RequestToken)
 
+from vlib import co as _co
 from vlib import fakes as F
 from vlib import symreal as R
+import s3transfer.bandwidth as _B
+
+_CO_BUCKET = _co.make_co(_B.LeakyBucket, ['consume'], _B)
 
 EXPLANATION = (
     'C13: (1) integer accounting of the real BandwidthLimitedStream against a stub bucket (symbolic read amounts, '
@@ -304,10 +308,7 @@ def two_streams_below_limit(n1, n2, s1, t1, s2, t2):
     advances by one second at every reading).  LeakyBucket.consume is a co-version generated from the source; the
     interleaving has two preemptions at symbolic steps.  Traffic below the limit must never be delayed, the tracker's
     clock must never run backwards and its rate must stay finite."""
-    import s3transfer.bandwidth as B
     from vlib import co
-    if not hasattr(B.LeakyBucket, '_co_consume'):
-        co.make_co(B.LeakyBucket, ['consume'], B)
 
     class Clock:
         def __init__(self):
